@@ -134,7 +134,8 @@ OBLIGATIONS = [
         desc="real hashutil._convergence_hasher_tag on a small domain (path-per-input): different (k,n,segsize) or a different secret give different tags"),
     chx("read_encrypted", "C05_h", "h_read_encrypted", timeout=T,
         bounds={"quick": {"nchunks": 2}, "thorough": {"nchunks": 3}},
-        cases=[{"hash_only": 0, "_label": "encrypt"}, {"hash_only": 1, "_label": "hash_only_first"}],
+        cases=[{"hash_only": h, "first": f, "_label": "%s,first-read-%s" % (("encrypt", "hash_only_first")[h], ("several-chunks", "one-chunk")[f])}
+               for h in (0, 1) for f in (0, 1)],
         desc="EncryptAnUploadable.read_encrypted/_read_encrypted/_hash_and_encrypt_plaintext, symbolic CHUNKSIZE, two consecutive calls (first maybe hash_only): "
              "ciphertext pieces are plaintext [0,a1) and [a1,a1+a2) in order with a_i = min(length, remaining); hash_only returns nothing but still feeds "
              "the cipher stream and the plaintext hasher; one encryptor keyed with the uploadable's key"),
